@@ -229,6 +229,10 @@ pub struct World {
     /// history of the export path before the export under test
     #[serde(default)]
     pub prior: Vec<Prior>,
+    /// history of the *process*: worlds the same thread ran through earlier (a long-lived
+    /// exporter/importer). Their own verdicts are not judged here.
+    #[serde(default)]
+    pub earlier: Vec<World>,
 }
 
 fn yes() -> bool {
@@ -523,6 +527,12 @@ fn prepared_subject(prog: &ProgSpec, dedup: bool, keys: Keys, seedtag: u64) -> S
 
 /// Run one world inside the current (party) thread.
 fn run_world_inner(w: &World) -> Obs {
+    for e in &w.earlier {
+        let mut e = e.clone();
+        e.earlier.clear();
+        let _ = guarded(|| run_world_inner(&e));
+        seams::reset_world();
+    }
     let mut obs = Obs::default();
     seams::install_plan(Plan::default());
     let path = seams::sim_path("circuit.bristol.txt");
@@ -1120,7 +1130,7 @@ fn random_text(p: &mut Prng) -> Vec<u8> {
 
 fn reference_export(prog: &ProgSpec, dedup: bool, keys: Keys) -> Option<(Vec<u8>, u64, u64)> {
     // fault-free export to learn the size of the search space (write count, bytes)
-    let w = World { program: Some(prog.clone()), dedup, keys, export_plan: Plan::default(), corruptions: vec![], import_plan: Plan::default(), via_lib: false, s5: None, raw_text: None, prior: vec![] };
+    let w = World { program: Some(prog.clone()), dedup, keys, export_plan: Plan::default(), corruptions: vec![], import_plan: Plan::default(), via_lib: false, s5: None, raw_text: None, prior: vec![], earlier: vec![] };
     seams::reset_world();
     let w2 = w.clone();
     run_party(keys, move || {
@@ -1157,6 +1167,7 @@ pub fn make_world(plan: &CasePlan, seed: u64, idx: u64) -> (World, &'static str,
         s5: None,
         raw_text: None,
         prior: vec![],
+        earlier: vec![],
     };
     match family {
         "seeded" => {
@@ -1284,10 +1295,46 @@ fn has_class(o: &Obs, class: &str) -> Option<Finding> {
     o.findings.iter().find(|f| f.class == class).cloned()
 }
 
-pub fn minimise(w: &World, f: &Finding) -> (World, Finding) {
+pub fn minimise(w: &World, f: &Finding, history: &[World]) -> (World, Finding) {
     let class = f.class.clone();
     let mut best = w.clone();
     let mut bf = f.clone();
+    // does the world reproduce in a fresh process? if not, the process's history matters
+    if has_class(&run_world(&best), &class).is_none() && !history.is_empty() {
+        let mut cand = best.clone();
+        cand.earlier = history.to_vec();
+        match has_class(&run_world(&cand), &class) {
+            None => return (best, bf),
+            Some(f2) => {
+                best = cand;
+                bf = f2;
+            }
+        }
+        let mut chunk = (best.earlier.len() / 2).max(1);
+        let mut budget = 80;
+        while chunk >= 1 && budget > 0 {
+            let mut i = 0;
+            let mut progressed = false;
+            while i < best.earlier.len() && budget > 0 {
+                budget -= 1;
+                let mut cand = best.clone();
+                let end = (i + chunk).min(cand.earlier.len());
+                cand.earlier.drain(i..end);
+                if let Some(f2) = has_class(&run_world(&cand), &class) {
+                    best = cand;
+                    bf = f2;
+                    progressed = true;
+                } else {
+                    i = end;
+                }
+            }
+            if chunk == 1 && !progressed {
+                break;
+            }
+            chunk = if chunk > 1 { chunk / 2 } else { 1 };
+        }
+        bf.what = format!("{} [only in a process that ran {} earlier export/import worlds on the same thread]", bf.what, best.earlier.len());
+    }
     let mut try_world = |cand: World, best: &mut World, bf: &mut Finding| -> bool {
         let o = run_world(&cand);
         if let Some(f2) = has_class(&o, &class) {
@@ -1466,7 +1513,7 @@ fn absorb(obs: &Obs, w: &World, acc: &mut Acc) {
     }
     for f in &obs.findings {
         if acc.seen.insert(f.signature.clone()) {
-            acc.pending.push((w.clone(), f.clone()));
+            acc.pending.push((w.clone(), f.clone(), vec![]));
         }
     }
 }
@@ -1479,7 +1526,19 @@ struct Acc {
     nontrivial: BTreeSet<u64>,
     d: Digest,
     seen: BTreeSet<String>,
-    pending: Vec<(World, Finding)>,
+    pending: Vec<(World, Finding, Vec<World>)>,
+}
+
+/// Absorb a batch that ran on ONE thread: a finding's process history is the part of the batch
+/// that ran before it (used only if the world alone does not reproduce the finding).
+fn absorb_batch(obs: &[Obs], ws: &[World], acc: &mut Acc) {
+    for (j, (o, w)) in obs.iter().zip(ws.iter()).enumerate() {
+        let before = acc.pending.len();
+        absorb(o, w, acc);
+        for p in acc.pending.iter_mut().skip(before) {
+            p.2 = ws[..j].to_vec();
+        }
+    }
 }
 
 fn run_sweep(base: &World, acc: &mut Acc) {
@@ -1504,9 +1563,7 @@ fn run_sweep(base: &World, acc: &mut Acc) {
         batch.push(w);
         if batch.len() >= 512 {
             let ws = std::mem::take(&mut batch);
-            for (o, w) in run_worlds(keys, ws.clone()).iter().zip(ws.iter()) {
-                absorb(o, w, acc);
-            }
+            absorb_batch(&run_worlds(keys, ws.clone()), &ws, acc);
         }
     };
     go(base.clone(), acc);
@@ -1629,9 +1686,7 @@ fn run_sweep(base: &World, acc: &mut Acc) {
     // flush the last partial batch
     let _ = &mut go;
     let ws = std::mem::take(&mut batch);
-    for (o, w) in run_worlds(keys, ws.clone()).iter().zip(ws.iter()) {
-        absorb(o, w, acc);
-    }
+    absorb_batch(&run_worlds(keys, ws.clone()), &ws, acc);
 }
 
 pub fn run_case(plan: &CasePlan, seed: u64, idx: u64) -> CaseResult {
@@ -1659,8 +1714,8 @@ pub fn run_case(plan: &CasePlan, seed: u64, idx: u64) -> CaseResult {
     }
     acc.d.u64(p.draws);
     let mut violations = vec![];
-    for (fw, f) in std::mem::take(&mut acc.pending) {
-        let (mw, mf) = minimise(&fw, &f);
+    for (fw, f, hist) in std::mem::take(&mut acc.pending) {
+        let (mw, mf) = minimise(&fw, &f, &hist);
         violations.push(Violation {
             property: "C11".into(),
             class: mf.class.clone(),
